@@ -101,13 +101,14 @@ class Scratch(object):
                     child.unlink()
                 except OSError:
                     pass
-        self._n = 0
+        # names are never reused: a handle leaked by a failed run must not
+        # alias a later file of the same name
 
 
 _WORKER = {}
 
 
-def _worker_init(module_name, run_dir):
+def _worker_init(module_name, run_dir, redirect_fds=True):
     env_setup()
     # quiet the library (it prints progress) inside workers
     devnull = open(os.devnull, 'w')
@@ -118,6 +119,25 @@ def _worker_init(module_name, run_dir):
     _WORKER['module'] = importlib.import_module(module_name)
     d = pathlib.Path(tempfile.mkdtemp(dir=run_dir, prefix=f'w{os.getpid()}_'))
     _WORKER['scratch'] = Scratch(d)
+    if redirect_fds:
+        # children forked by the library inherit these: nothing they print
+        # reaches (or keeps open) the runner's stdout, and their tracebacks
+        # are kept for violation messages
+        err_path = pathlib.Path(run_dir) / f'stderr_{os.getpid()}.log'
+        _WORKER['stderr_path'] = err_path
+        fd_null = os.open(os.devnull, os.O_WRONLY)
+        os.dup2(fd_null, 1)
+        fd_err = os.open(err_path, os.O_WRONLY | os.O_CREAT | os.O_APPEND)
+        os.dup2(fd_err, 2)
+        try:
+            os.setpgid(0, 0)
+        except OSError:
+            pass
+        try:
+            import ctypes
+            ctypes.CDLL('libc.so.6').prctl(1, signal.SIGTERM)  # PDEATHSIG
+        except Exception:
+            pass
 
 
 def _worker_eval(case):
@@ -133,6 +153,7 @@ def _worker_eval(case):
             'key': 'harness-exception',
             'msg': 'evaluate() raised:\n' + traceback.format_exc()}]}
     finally:
+        close_leaked_h5()
         scratch.wipe()
     out['_wall'] = time.time() - t0
     return out
@@ -175,7 +196,7 @@ class Runner(object):
         jobs = n_jobs()
         case_timeout = float(getattr(self.mod, 'CASE_TIMEOUT', 600))
         if jobs == 1 or getattr(self.mod, 'SERIAL', False):
-            _worker_init(self.module_name, self.run_dir)
+            _worker_init(self.module_name, self.run_dir, redirect_fds=False)
             sys.stdout = sys.__stdout__
             for case in cases:
                 saved = sys.stdout
@@ -229,6 +250,12 @@ class Runner(object):
         finally:
             try:
                 for p in list(getattr(ex, '_processes', {}).values()):
+                    # each worker leads its own process group: take its
+                    # descendants (manager servers, stuck workers) with it
+                    try:
+                        os.killpg(p.pid, signal.SIGTERM)
+                    except (ProcessLookupError, PermissionError):
+                        pass
                     if p.is_alive():
                         os.kill(p.pid, signal.SIGTERM)
             except Exception:
@@ -392,3 +419,45 @@ def _repo_head():
         return head + ('+dirty' if dirty else '')
     except Exception:
         return 'unknown'
+
+
+def stderr_mark():
+    """current size of this worker's stderr capture (0 when not captured)"""
+    p = _WORKER.get('stderr_path')
+    try:
+        return os.path.getsize(p) if p else 0
+    except OSError:
+        return 0
+
+
+def stderr_since(mark, limit=3000):
+    p = _WORKER.get('stderr_path')
+    if not p:
+        return ''
+    try:
+        with open(p, 'rb') as src:
+            src.seek(mark)
+            data = src.read()
+        return data.decode('utf-8', 'replace')[-limit:]
+    except OSError:
+        return ''
+
+
+def close_leaked_h5():
+    """
+    Close HDF5 files the code under test left open in this process (its row
+    iterators rely on garbage collection).  HDF5 identifies files by inode,
+    and tmpfs reuses inode numbers, so a leaked handle of a deleted file can
+    make the creation of an unrelated new file fail.
+    """
+    import gc
+    gc.collect()
+    try:
+        import h5py
+        for fid in h5py.h5f.get_obj_ids(types=h5py.h5f.OBJ_FILE):
+            try:
+                h5py.File(fid).close()
+            except Exception:
+                pass
+    except Exception:
+        pass
